@@ -148,6 +148,13 @@ def generate(repo):
     out.append('Definition core_has_key_block : list (Z * bool) := [%s].' % '; '.join(rows))
     out.append('')
 
+    named = 0
+    for m in enums.CryptographicUsageMask:
+        named |= m.value
+    out.append('(* the bits of a Cryptographic Usage Mask that have a name (all others are ignored when a mask is expanded) *)')
+    out.append('Definition usage_mask_named : Z := %d.' % named)
+    out.append('')
+
     # 5. policy queries on a name without a rule set
     ap = policy.AttributePolicy(contents.ProtocolVersion(1, 2))
     rows = []
